@@ -109,7 +109,7 @@ CONFIG = {
                 "written with two values, nothing may panic or change the board",
     },
     "C10": {
-        "ignore_ops": ("pos",), "spec_tags": ("perft", "snap", "clicount"), "sample_tags": ("perft", "clicount"),
+        "ignore_ops": ("pos",), "spec_tags": ("perft", "perft2", "snap", "clicount"), "sample_tags": ("perft", "clicount"),
         "rule": "MoveGenerator::count_positions(depth) for depths 0..N in rayon pools of 1, 2, 4, 16 threads, with a cache-cleared and with a long-lived generator, vs the cumulative "
                 "perft of the rules spec (sum over k = 1..depth+1 of the number of legal move sequences of length k)",
     },
@@ -214,6 +214,9 @@ def scenarios(pid, tier, seed):
         return [
             {"args": ["scen", "family=revisits", "search=1", "ops=snap", "walkpos=%d" % (30 if q else 1500), S], "shards": 4},
             {"args": ["scen", "family=searches", "depths=0,1,2", "pools=%s" % ("1,4,16" if q else "1,2,4,16,64"), "walkpos=%d" % (4 if q else 400), S], "shards": 16},
+            # the same placement at half-move clocks up to and beyond the move-count draw, and after a third registration:
+            # the side to move still has its legal moves and the search must answer with one
+            {"args": ["scen", "family=searches", "depths=1", "pools=1,4", "clocks=1", "maxpieces=%d" % (6 if q else 32), "walkpos=%d" % (4 if q else 200), S], "shards": 16},
             # one context asked about the same placement with either side to move
             {"args": ["scen", "family=searches", "depths=2", "pools=1,4", "sides=1", "maxpieces=%d" % (8 if q else 32), "walkpos=%d" % (6 if q else 300), S], "shards": 16},
         ] + ([] if q else [
